@@ -11,6 +11,7 @@ import (
 	"bytes"
 	"errors"
 	"fmt"
+	"io"
 	"io/fs"
 	"os"
 	"os/exec"
@@ -46,13 +47,20 @@ type ProcCase struct {
 	Strace    *StraceInj `json:"strace,omitempty"`
 }
 
+// StraceInj: ptrace-level fault injection (strace -e inject=...) restricted to
+// one path with -P: fail the When-th read/openat of an input file, or the
+// When-th write to the -o file.
 type StraceInj struct {
 	Syscall string `json:"syscall"` // read | write | openat
 	When    int    `json:"when"`
 	Errno   string `json:"errno"`
+	Input   int    `json:"input"` // index of the input file (read/openat); ignored for write
 }
 
 type procResult struct {
+	injected  bool // the injected fault actually fired
+	delivered int  // bytes the faulted file had delivered before the injected read
+	eofSeen   bool // a read had already returned 0 (end of file) before the injected one
 	exit     int
 	signaled bool
 	stdout   string
@@ -189,7 +197,11 @@ func runBinary(c *ProcCase, variant string) (res procResult, trouble error) {
 	bin := jqawkBin()
 	argv := args
 	if c.Strace != nil {
-		argv = append([]string{"-f", "-qq", "-o", filepath.Join(dir, ".strace"), "-e", "trace=" + c.Strace.Syscall, "-e", fmt.Sprintf("inject=%s:error=%s:when=%d", c.Strace.Syscall, c.Strace.Errno, c.Strace.When), bin}, args...)
+		path := "out.json"
+		if c.Strace.Syscall != "write" && c.Strace.Input < len(c.Inputs) {
+			path = c.Inputs[c.Strace.Input].Name
+		}
+		argv = append([]string{"-f", "-qq", "-o", filepath.Join(dir, ".strace"), "-P", path, "-e", "trace=" + c.Strace.Syscall, "-e", fmt.Sprintf("inject=%s:error=%s:when=%d", c.Strace.Syscall, c.Strace.Errno, c.Strace.When), bin}, args...)
 		bin = "/usr/bin/strace"
 	}
 	cmd := exec.Command(bin, argv...)
@@ -221,6 +233,37 @@ func runBinary(c *ProcCase, variant string) (res procResult, trouble error) {
 	ob, _ := os.ReadFile(outPath)
 	eb, _ := os.ReadFile(errPath)
 	res.stdout, res.stderr = string(ob), string(eb)
+	if c.Strace != nil {
+		// strace's own chatter is not the program's diagnostic
+		var keep []string
+		for _, l := range strings.Split(res.stderr, "\n") {
+			if !strings.HasPrefix(l, "strace: ") {
+				keep = append(keep, l)
+			}
+		}
+		res.stderr = strings.Join(keep, "\n")
+		// the observed history: what the file delivered before the injected call
+		// (strace counts per thread, so the intended position is not trusted)
+		if lb, err := os.ReadFile(filepath.Join(dir, ".strace")); err == nil {
+			for _, l := range strings.Split(string(lb), "\n") {
+				if strings.Contains(l, "(INJECTED)") {
+					res.injected = true
+					break
+				}
+				if c.Strace.Syscall == "read" && strings.Contains(l, " read(") {
+					if i := strings.LastIndex(l, "= "); i >= 0 {
+						if n, err := strconv.Atoi(strings.TrimSpace(l[i+2:])); err == nil {
+							if n > 0 {
+								res.delivered += n
+							} else if n == 0 {
+								res.eofSeen = true
+							}
+						}
+					}
+				}
+			}
+		}
+	}
 	if ofilePath != "" {
 		if fb, err := os.ReadFile(ofilePath); err == nil {
 			res.ofile, res.ofileOK = string(fb), true
@@ -636,8 +679,184 @@ func registerProc() {
 		Components: procComponents,
 		Workloads: []*Workload{
 			procWorkload("cli", map[string]int{"quick": 9000, "thorough": 600000}, false),
+			{
+				Name:      "cli-syscall-faults",
+				Count:     func(tier string) int { return map[string]int{"quick": 480, "thorough": 30000}[tier] },
+				Gen:       func(i int, t *Tape, tier string) any { return genSyscallFaultCase(t) },
+				Run:       func(c any, keep bool) Outcome { return runSyscallFaultCase(c.(*ProcCase), keep) },
+				New:       func() any { return &ProcCase{} },
+				NoRecheck: true,
+				ShrinkEvals: 150,
+			},
 		},
 	})
 }
 
-var _ = strconv.Itoa
+
+// prefixThenError delivers data and then fails like a read(2) error.
+type prefixThenError struct {
+	data     []byte
+	pos      int
+	err      error
+	eofFirst bool // report end of file once before failing (the observed history did)
+}
+
+func (r *prefixThenError) Read(p []byte) (int, error) {
+	if r.pos >= len(r.data) {
+		if r.eofFirst {
+			r.eofFirst = false
+			return 0, io.EOF
+		}
+		return 0, r.err
+	}
+	n := copy(p, r.data[r.pos:])
+	r.pos += n
+	return n, nil
+}
+
+// runSyscallFaultCase: one invocation under strace with an injected syscall
+// failure on one path. The oracle is computed from the *observed* history.
+func runSyscallFaultCase(c *ProcCase, keep bool) Outcome {
+	log := newEventLog(keep)
+	o := Outcome{Probes: map[string]int{}, Faults: map[string]int{}, Nontrivial: true}
+	finish := func() Outcome {
+		// thread scheduling decides which read is the n-th of its thread: the event
+		// hash covers the configuration only
+		o.LogHash, o.Log, o.Steps = fmt.Sprintf("%x", hashStr(c.Strace.Syscall+c.Prog)), log.lines, log.seq
+		return o
+	}
+	if _, err := os.Stat("/usr/bin/strace"); err != nil {
+		o.Skipped = "ptrace: strace unavailable"
+		return finish()
+	}
+	res, trouble := runBinary(c, "")
+	if trouble != nil {
+		o.Class, o.Msg = "harness", trouble.Error()
+		return finish()
+	}
+	log.add('P', 'x', "EXEC(strace %s when=%d) injected=%v delivered=%d exit=%d stdout=%q stderr=%q", c.Strace.Syscall, c.Strace.When, res.injected, res.delivered, res.exit, truncate(res.stdout, 200), truncate(res.stderr, 200))
+	o.Shape = fmt.Sprintf("%s|inj=%v|exit=%d|o=%s|in=%d", c.Strace.Syscall, res.injected, res.exit, c.OMode, len(c.Inputs))
+	if strings.Contains(res.stderr, "PTRACE") || strings.Contains(res.stderr, "ptrace") {
+		o.Skipped = "ptrace: not permitted in this sandbox"
+		return finish()
+	}
+	if res.signaled || crashSignature(res.stderr) {
+		o.Class, o.Msg = "process-crash", fmt.Sprintf("the binary died with a Go crash under an injected %s failure: %s", c.Strace.Syscall, truncate(res.stderr, 400))
+		return finish()
+	}
+	if res.exit != 0 && strings.TrimSpace(res.stderr) == "" {
+		o.Class, o.Msg = "silent-failure", fmt.Sprintf("exit status %d without a diagnostic on stderr", res.exit)
+		return finish()
+	}
+	if !res.injected {
+		o.Probes["injection_not_reached"]++
+		return finish()
+	}
+	o.Faults["ptrace_"+c.Strace.Syscall+"_"+c.Strace.Errno]++
+	// library oracle on the observed history
+	lang.VerifResetProcessState()
+	var files []lang.InputFile
+	for i, in := range c.Inputs {
+		switch {
+		case c.Strace.Syscall == "read" && i == c.Strace.Input:
+			d := res.delivered
+			if d > len(in.Data) {
+				d = len(in.Data)
+			}
+			files = append(files, lang.InputFile{Name: in.Name, Reader: &prefixThenError{data: in.Data[:d], eofFirst: res.eofSeen, err: &fs.PathError{Op: "read", Path: in.Name, Err: syscall.EIO}}})
+		case c.Strace.Syscall == "openat" && i == c.Strace.Input:
+			files = append(files, lang.InputFile{Name: in.Name, Reader: failingReader{&fs.PathError{Op: "open", Path: in.Name, Err: syscall.EACCES}}})
+		default:
+			files = append(files, lang.InputFile{Name: in.Name, Reader: bytes.NewReader(in.Data)})
+		}
+	}
+	var out bytes.Buffer
+	libKind, libMsg := "", ""
+	jsonOK := false
+	func() {
+		defer func() {
+			if p := recover(); p != nil {
+				libKind, libMsg = "panic", fmt.Sprint(p)
+			}
+		}()
+		ev, err := lang.EvalProgram(c.Prog, files, c.Selectors, &out, false)
+		libKind, libMsg = classifyErr(err)
+		if err == nil && ev != nil {
+			if _, jerr := ev.GetRootJson(); jerr == nil {
+				jsonOK = true
+			}
+		}
+	}()
+	log.add('L', 0, "LIB kind=%s msg=%q", libKind, libMsg)
+	if libKind == "panic" {
+		o.Skipped = "library oracle panicked (C01 territory)"
+		return finish()
+	}
+	switch c.Strace.Syscall {
+	case "read":
+		// the run got to read the failing file (the injection fired): it must fail
+		// unless the program had already decided to exit, and stdout must be what
+		// the library prints for the same delivered prefix
+		if libKind == "success" {
+			o.Skipped = "program ended before the failing read mattered"
+			return finish()
+		}
+		if res.exit == 0 {
+			o.Class, o.Msg = "exit-0-on-error", fmt.Sprintf("read(2) on %s failed with %s after %d bytes, yet the binary exited 0 (library: %s %q)", c.Inputs[c.Strace.Input].Name, c.Strace.Errno, res.delivered, libKind, libMsg)
+			return finish()
+		}
+		if res.stdout != out.String() {
+			o.Class, o.Msg = "stdout-differs-from-library", fmt.Sprintf("after a read error at byte %d\n--- library ---\n%s\n--- binary ---\n%s", res.delivered, truncate(out.String(), 500), truncate(res.stdout, 500))
+		}
+	case "openat":
+		if res.exit == 0 {
+			o.Class, o.Msg = "exit-0-on-error", fmt.Sprintf("opening %s failed with %s, yet the binary exited 0", c.Inputs[c.Strace.Input].Name, c.Strace.Errno)
+		}
+	case "write":
+		if libKind == "success" && jsonOK && res.exit == 0 {
+			o.Class, o.Msg = "exit-0-on-error", fmt.Sprintf("write(2) to the -o file failed with %s, yet the binary exited 0", c.Strace.Errno)
+		}
+	}
+	return finish()
+}
+
+func genSyscallFaultCase(t *Tape) *ProcCase {
+	c := &ProcCase{}
+	g := &streamGen{t: t}
+	g.profile = t.Weighted(2, 2, 3, 3)
+	g.rich = t.Chance(1, 2)
+	if t.Chance(1, 2) {
+		sc := genStreamCase(t, streamGenOpts{mode: "c14", maxFiles: 0, maxVals: 0, sigProb: 10})
+		c.Prog = sc.ProgText
+	} else {
+		c.Prog = genAccProgram(t, true)
+	}
+	n := 1 + t.Draw(3)
+	for i := 0; i < n; i++ {
+		nv := 1 + t.Draw(5)
+		data := g.fileText(nv)
+		if t.Chance(1, 3) {
+			// larger than the decoder's first read: several read(2) calls per file
+			for len(data) < 600+t.Draw(1500) {
+				data = append(data, g.fileText(3)...)
+				data = append(data, '\n')
+			}
+		}
+		c.Inputs = append(c.Inputs, ProcFile{Name: fmt.Sprintf("in%d.json", i), Data: QBytes(data), Kind: "regular"})
+	}
+	c.ViaF = t.Chance(1, 4)
+	switch t.Weighted(5, 2, 2) {
+	case 0:
+		c.Strace = &StraceInj{Syscall: "read", When: 1 + t.Draw(4), Errno: []string{"EIO", "EINTR", "EBADF", "ENOMEM"}[t.Weighted(5, 0, 1, 1)], Input: t.Draw(n)}
+		if t.Chance(1, 3) && n == 1 {
+			c.OMode = []string{"-", "file"}[t.Draw(2)]
+		}
+	case 1:
+		c.Strace = &StraceInj{Syscall: "openat", When: 1, Errno: []string{"EACCES", "EMFILE", "EIO"}[t.Draw(3)], Input: t.Draw(n)}
+	default:
+		c.Inputs = c.Inputs[:1]
+		c.OMode = "existing"
+		c.Strace = &StraceInj{Syscall: "write", When: 1, Errno: []string{"ENOSPC", "EIO", "EDQUOT"}[t.Draw(3)]}
+	}
+	return c
+}
